@@ -638,7 +638,11 @@ func (p *Parser) parseTernaryExpression(condition ast.Expression) ast.Expression
 		Condition: condition,
 	}
 	p.nextToken() //skip the '?'
-	precedence := p.curPrecedence()
+
+	// Each arm is a complete expression.  (The precedence used to be
+	// taken from whatever token the true-arm happened to start with,
+	// which made `c ? (1) + 2 : 3` or `c ? -1 + 2 : 3` syntax errors.)
+	precedence := LOWEST
 	expression.IfTrue = p.parseExpression(precedence)
 
 	// error?
